@@ -49,7 +49,7 @@ fn cut_after_ended(out: &[u8], ids: &[u16], n: usize) -> usize {
 fn run_fault(c: &mut Case, case: &ConnCase, model: &[ReqModel], seed: u64, fault: Fault) -> Outcome {
     let (mut w, _runner): (World, _) = conn::build_world(case, Rng::new(seed));
     {
-        let mut p = w.pipe.lock().unwrap();
+        let mut p = w.pipe.lock().unwrap_or_else(std::sync::PoisonError::into_inner);
         match fault {
             Fault::None => {}
             Fault::EofAt(o) => p.eof_at = Some(o),
@@ -58,10 +58,18 @@ fn run_fault(c: &mut Case, case: &ConnCase, model: &[ReqModel], seed: u64, fault
             Fault::WriteZero(j) => p.write_fault = Some((j, WriteFault::Zero)),
         }
     }
-    let end = w.run(300_000, |_, _| {});
+    let end = match crate::ev::guarded(|| w.run(300_000, |_, _| {})) {
+        Ok(e) => e,
+        Err(p) => {
+            // (the mock transport unwinds out of a poll when the task keeps calling it after EOF / an error)
+            let sig = if p.starts_with("spin:") { "spin-after-fault".to_string() } else { crate::ev::panic_signature(&p) };
+            report(c, case, &w, &sig, format!("[{fault:?}] {p}"));
+            return Outcome { read_calls: 0, write_calls: 0, ok: false };
+        }
+    };
     c.l.evaluations += 1;
     let (out, read_total, read_calls, write_calls, after_fault, fired) = {
-        let p = w.pipe.lock().unwrap();
+        let p = w.pipe.lock().unwrap_or_else(std::sync::PoisonError::into_inner);
         (p.outbox.clone(), p.read_total, p.read_calls, p.write_calls, p.bytes_after_write_fault, p.write_fault_fired_at)
     };
     let oc = |ok| Outcome { read_calls, write_calls, ok };
